@@ -42,6 +42,7 @@ type Project struct {
 	Probe   string   `json:"probe"`  // directory under probes/
 	Config  string   `json:"config"` // yaml text
 	Univ    bool     `json:"univ"`   // registered in registry (universal resolver probe)
+	Schema  string   `json:"-"`      // generated schema text (random-schema projects)
 	GenExit int      `json:"gen_exit"`
 	GenErr  string   `json:"gen_err,omitempty"`
 	Compile string   `json:"compile"` // ok | fail | skipped
@@ -117,6 +118,11 @@ func projects() []*Project {
 	var ps []*Project
 	for _, r := range rows {
 		ps = append(ps, &Project{Name: "core_" + r.name, Probe: "core", Univ: true, Config: yamlFor("core_"+r.name, r, coreModels)})
+	}
+	// seeded random schemas, each under a different generator configuration
+	for k := 1; k <= 8; k++ {
+		name := fmt.Sprintf("rnd_%d", k)
+		ps = append(ps, &Project{Name: name, Probe: "", Univ: true, Schema: randSchema(int64(k)), Config: yamlFor(name, rows[(k*5+1)%len(rows)], "")})
 	}
 	// extra probes: directory probes/<name>/ with its own gqlgen.yml.tmpl ("PKG" replaced)
 	ents, _ := os.ReadDir(filepath.Join(verifRoot, "probes"))
@@ -270,7 +276,12 @@ func main() {
 			dir := filepath.Join(cur, p.Name)
 			os.MkdirAll(dir, 0o755)
 			src := filepath.Join(verifRoot, "probes", p.Probe)
-			ents, _ := os.ReadDir(src)
+			var ents []os.DirEntry
+			if p.Probe == "" {
+				os.WriteFile(filepath.Join(dir, "schema.graphql"), []byte(p.Schema), 0o644)
+			} else {
+				ents, _ = os.ReadDir(src)
+			}
 			for _, e := range ents {
 				if e.IsDir() || strings.HasSuffix(e.Name(), ".tmpl") {
 					continue
